@@ -216,6 +216,11 @@ def gen_cases(ctx):
     for sh in GOOD_SHAPES:
         for p in PAYLOAD_STRINGS:
             yield [(sh, p, 1), ("dict_notification", "sentinel", None)]
+    # the same message several times in a row (a heartbeat, equal progress ticks), typed and plain, also around something
+    # unserialisable: every one of them is a message
+    for sh in ("typed_notification", "dict_notification", "direct_notification", "str_utf8", "typed_request"):
+        yield [(sh, "tick", 9)] * 3 + [("dict_notification", "sentinel", None)]
+        yield [(sh, "tick", 9), ("unser_object", "x", None), (sh, "tick", 9), ("typed_notification", "tick", None), ("dict_notification", "tick", None)]
     for sh in SCALAR_SHAPES:
         for p in (PAYLOAD_STRINGS if "str" in sh or "list" in sh else PAYLOAD_STRINGS[:1]):
             yield [(sh, p, 4), ("dict_notification", "sentinel", None)]
